@@ -201,10 +201,7 @@ def c06_3(ctx):
     # the coinbase exemption applies to transactions with exactly one, null, input (shared with C20.3)
     k = ctx.func(BTX, "Tx.is_coinbase")
     wk = sym.int_walk(ctx, k, {"len(self.txs_in)"})
-    rets = [e for e in wk.exits if e.kind == "return"]
-    if len(rets) != 1 or rets[0].value is None:
-        raise Undecided("Tx.is_coinbase: expected a single return expression")
-    form = wk.atomize(rets[0].value, True)
+    form = sym.truth_formula(wk)
     sk = sym.may_set(form, U, E)
     ctx.check(sk == iv(1, 1), "coinbase-single-input", ctx.where(k), "Tx.is_coinbase is true for transactions with %s inputs; the exemption from input validation is for exactly one (null) input" % sk.fmt())
 
